@@ -113,6 +113,29 @@ def chk_bayer(case, acc, seed):
                     break
             if rm.maxerr(sum(np.asarray(g) for g in got), exp) > 1e-12:
                 acc.violation(f'bayer:channels-sum:{osk}', case, 'channel images do not sum to the flattened image')
+    # efficiencies given as Spectrum objects that share one wavelength array, sampled at wavelengths given in another unit
+    if case.get('spectra'):
+        from lentil.radiometry import Spectrum
+        grid = np.array([400.0, 450.0, 550.0, 650.0, 700.0])
+        grid0 = grid.copy()
+
+        def curve(c):
+            return np.array([0.33 if g not in waves else qe[c][waves.index(g)] for g in grid0])
+        sp = {c: Spectrum(grid, curve(c), waveunit='nm') for c in 'RGB'}
+        w_um = np.array(waves) / 1e3
+        for rep in (1, 2):
+            try:
+                g2 = lentil.detector.collect_charge_bayer(img, w_um, sp['R'], sp['G'], sp['B'], pat, oversample=os_, waveunit='um', flatten=True)
+            except Exception as e:
+                acc.violation(f'bayer:spectra:raises:{type(e).__name__}', dict(case, call=rep), repr(e))
+                break
+            if np.asarray(g2).shape != exp.shape or rm.maxerr(np.asarray(g2), exp) > 1e-9:
+                acc.violation('bayer:spectrum-qe-shared-grid', dict(case, call=rep),
+                              f'call {rep}: efficiencies given as spectra (shared nm grid, wavelengths in um) differ from the vector form by {rm.maxerr(np.asarray(g2), exp):.3e}')
+                break
+        if not np.array_equal(grid, grid0):
+            acc.violation('bayer:caller-wavelength-array-modified', case, "the wavelength array the caller built the spectra from was modified")
+        acc.cls('bayer:spectra')
     # equal efficiencies in every channel reproduce the monochrome result
     q = qe_vector('q')[:nw]
     mono = lentil.detector.collect_charge(img, waves, q)
@@ -125,7 +148,9 @@ def chk_bayer(case, acc, seed):
 
 
 # ---- adc ---------------------------------------------------------------------------------------------------
-FRAME = [[-3.0, 0.0, 0.5, 1.25], [7.0, 99.5, 100.0, 100.5], [101.0, 250.0, 2.0, 64.0]]
+FRAME = [[-3.0, 0.0, 0.5, 1.25], [7.0, 99.5, 100.0, 100.5], [101.0, 250.0, -30.0, 64.0]]
+# a frame whose maximum equals the capacity exactly (nothing above it)
+FRAME_EQ = [[-3.0, 0.0, 0.5, 1.25], [7.0, 99.5, 100.0, 100.0], [100.0, 25.0, -30.0, 64.0]]
 GAINS = {
     'scalar': 0.5,
     'scalar1': 1.0,
@@ -133,6 +158,8 @@ GAINS = {
     'poly2': [2.0 ** -6, 0.5],
     'poly3': [2.0 ** -12, 2.0 ** -7, 0.25],
     'poly2neg': [-2.0 ** -6, 1.5],
+    'poly2big': [1.0, 0.5],
+    'scalarneg': -0.5,
     'pixel': 'pixel',
     'pixelpoly': 'pixelpoly',
 }
@@ -163,7 +190,7 @@ def adc_model(e, gain, cap):
 def chk_adc(case, acc, seed):
     import lentil
     gname, cap, dt, warn, fdt = case['gain'], case['cap'], case['dtype'], case['warn'], case['frame_dtype']
-    frame = np.array(FRAME, dtype=float)
+    frame = np.array(FRAME_EQ if case.get('frame') == 'max==capacity' else FRAME, dtype=float)
     if fdt == 'int':
         frame = np.floor(frame).astype(np.int64)
     shape = frame.shape
@@ -263,7 +290,8 @@ def t_bayer(arg, acc):
             for os_ in range(1, osmax + 1):
                 for flatten in (True, False):
                     acc.transitions += 1
-                    chk_bayer({'kind': 'bayer', 'pattern': pat, 'k': k, 'tiles': tiles, 'os': os_, 'flatten': flatten}, acc, seed)
+                    chk_bayer({'kind': 'bayer', 'pattern': pat, 'k': k, 'tiles': tiles, 'os': os_, 'flatten': flatten,
+                               'spectra': (flatten and tiles == (1, 2) and os_ <= 2)}, acc, seed)
 
 
 def t_other(arg, acc):
@@ -281,6 +309,9 @@ def t_other(arg, acc):
                         for fdt in ('float', 'int'):
                             acc.transitions += 1
                             chk_adc({'kind': 'adc', 'gain': gname, 'cap': cap, 'dtype': dt, 'warn': warn, 'frame_dtype': fdt}, acc, seed)
+                            if cap == 100:
+                                chk_adc({'kind': 'adc', 'gain': gname, 'cap': cap, 'dtype': dt, 'warn': warn, 'frame_dtype': fdt,
+                                         'frame': 'max==capacity'}, acc, seed)
         for gname in ('scalar', 'scalar1', 'poly1', 'poly2', 'poly3'):
             for cap in (None, 100, 100.5):
                 chk_adc_monotone({'kind': 'adcmono', 'gain': gname, 'cap': cap}, acc, seed)
